@@ -124,6 +124,17 @@ def run(ctx, rep):
     RL = rep.rule('C10.R5', 'a rule stops offering targets because of a world / constant limit only in states where a quit flag is put on the branch (limit predicates and guarded target producers folded below / at / above the limit): an open branch cut short by a limit is never limit-free')
     common.limit_guards(ctx, rep, RL, 'C10.R5')
     r6(ctx, rep)
+    from .. import rulefold
+    R8 = rep.rule('C10.R8', 'an added premise cannot switch the identity rule off: IdentityIndiscernability folded over mock branches with several worlds -- the '
+                            'substitution at a world is offered unless its result is on the branch *at that world* (C01.R9)')
+    res8, cons8 = rulefold.fold_identity_indiscernability(m, deep=rep.tier == 'thorough')
+    rep.consult(*cons8)
+    for ok8, case8, detail8 in res8:
+        rep.instance(R8, ok=ok8, nontrivial=case8)
+        if not ok8:
+            rep.finding(R8, f'C10.R8/{case8}', cons8[0].split(' ')[0], 'cpl.Rules.IdentityIndiscernability._get_node_targets', f'{case8}: {detail8}')
+    RF = rep.rule('C10.R7', 'no starvation behind the fairness gate (the C02.R8 fold): whenever some node still has an accessible world it was not applied to, the box-type rules offer a target -- an unsaturated open branch would make the verdict depend on which further premises are present')
+    common.fair_gate(ctx, rep, RF, 'C10.R7')
 
 
 def r6(ctx, rep):
